@@ -15,7 +15,8 @@ Proof.
   destruct i as [z|b|ns|ns| |l|a b s| ]; cbn [as_index as_int as_seq]; try reflexivity;
     (* shape after the proposed fix for F-C02-1: an explicit string test before the coercion *)
     try (match goal with |- context [seq_has_str ?s] =>
-           destruct (seq_has_str s) eqn:E; [rewrite (seq_has_str_err s E)|] end;
+           destruct (seq_has_str s) eqn:E;
+           [pose proof (seq_has_str_err s E) as X; cbn [pd_int64index] in X; rewrite X|] end;
          cbn [pd_int64index]; reflexivity).
 Qed.
 
